@@ -17,6 +17,7 @@ NOTES = {
     ("c03-gc-deletes-gcfile-first", "C03"): "not a C03 violation (a lost freelist entry is a space leak); caught by C13",
     ("c03-commit-index-before-primary", "C03"): "equivalent since fix 2ca8007: Index.Flush itself flushes the primary before it writes any index record, so the order inside commit no longer matters",
     ("c03-freelist-mark-is-pool-length", "C03"): "equivalent since fix a3cd3de: Flush calls are serialized, so no other flush can empty the freelist pool between a commit's mark and its FlushTo, and the pool length at the mark equals the mark (it was caught - overlapping-flushes shape - while flushes could still overlap)",
+    ("c04-busy-ignores-position", "C04"): "equivalent for the listed properties: the change only makes index GC more conservative (every record in a file that the record's bucket still points into counts as busy), so nothing live is ever marked; a file that no bucket refers into is still reaped in full, which is all C11 asks",
     ("c03-buckets-before-write", "C05"): "equivalent: the just-flushed pool is consulted before the disk until the next flush",
     ("c03-snapshot-kept-after-load", "C02"): "not a C02 violation (a clean Close rewrites the snapshot); caught by C03",
     ("c06-igc-touches-current-file", "C04"): "equivalent sequentially: the records of the latest flush are always the newest of their buckets, so the tail of the current file is busy; caught by C06 under a two-preemption schedule",
